@@ -76,6 +76,19 @@ BASES = [
         ("OFF", "OFF :: comptime { 10 * 10 };"),
         ("raw", "raw :: (i: @Id) -> i64 { i64.(i32.(i)) }"),
     ], "io.pr(@raw(@mkid(5)));", "105 "),
+    # chains of constants whose *value* is needed at compile time (array length, comptime argument, discriminant)
+    Base("const-chain-as-array-length", [
+        ("N0", "N0 : usize : 3;"),
+        ("N1", "N1 : usize : @N0;"),
+        ("N2", "N2 : usize : @N1;"),
+        ("cnt", "cnt :: () -> usize { arr : [@N2]i32; arr.len }"),
+    ], "io.pr(i64.(@cnt()));", "3 "),
+    Base("const-chain-as-comptime-arg-and-discriminant", [
+        ("D0", "D0 : u8 : 7;"),
+        ("D1", "D1 : u8 : @D0;"),
+        ("E", "E :: enum { A | @D1, B | 9 };"),
+        ("g", "g :: (comptime n: u8) -> i64 { i64.(n) * 2 }"),
+    ], "io.pr(@g(@D1)); e : @E = @E.B; if #is_variant(e, @E.B) { io.pr(1); } if #is_variant(e, @E.A) { io.pr(2); }", "14 1 "),
 ]
 
 BASES5 = [
@@ -91,8 +104,10 @@ BASES5 = [
 REF_RE = re.compile(r"@(\w+)")
 
 
-def render(base, perm, assign):
-    """perm: order of the movable globals; assign: global name -> file index.  -> {relative path: text}"""
+def render(base, perm, assign, decoys=True):
+    """perm: order of the movable globals; assign: global name -> file index.  -> {relative path: text}
+    decoys: every file also defines an unrelated, never referenced global for each movable global that lives in
+    another file, under the same name (a name only means something inside its own file)"""
     texts = {0: [], 1: [], 2: []}
     needs = {0: set(), 1: set(), 2: set()}
 
@@ -119,6 +134,8 @@ def render(base, perm, assign):
         for other in sorted(needs[f]):
             head.append(f'{ALIAS[other]} :: #import("{FILES[other]}.capy");')
         body = texts[f] + ([main_src] if f == 0 else [])
+        if decoys:
+            body += [f"{name} :: 99;" for name in perm if assign[name] != f]
         files[FILES[f] + ".capy"] = "\n".join(head + body) + "\n"
     files["io.capy"] = IO
     return files
